@@ -47,9 +47,12 @@ type unit struct {
 	Start int `json:"start,omitempty"`
 	// phase 2: the image written by Ops (code = 2*kind + sync, tickCode = rotation tick), then every damage
 	// Slices > 1: this unit handles only the byte offsets with offset % Slices == Slice (large images)
-	Ops    []int   `json:"ops,omitempty"`
-	Slice  int     `json:"slice,omitempty"`
-	Slices int     `json:"slices,omitempty"`
+	Ops    []int `json:"ops,omitempty"`
+	Slice  int   `json:"slice,omitempty"`
+	Slices int   `json:"slices,omitempty"`
+	// Replay: every variant of the image is consumed by the real ConsensusState.catchupReplay(1) instead of
+	// being read by the harness (part "replay", see replay.go)
+	Replay bool    `json:"replay,omitempty"`
 	Cost   float64 `json:"cost"`
 }
 
@@ -686,7 +689,7 @@ func runImage(u unit, c *collector) {
 	defer tick()
 	replay := func(dmg string) func() interface{} {
 		return func() interface{} {
-			return map[string]interface{}{"phase": 2, "ops": opNames(ops), "op_codes": ops, "damage": dmg}
+			return map[string]interface{}{"phase": 2, "ops": opNames(ops), "op_codes": ops, "damage": dmg, "replay": u.Replay}
 		}
 	}
 	base := int64(len(ops)) << 40
@@ -718,7 +721,7 @@ func runImage(u unit, c *collector) {
 			if k.trailingZero() && payload[len(payload)-1] != 0 {
 				fatal("encoding of %s does not end in 0x00: ... % x", k, payload[len(payload)-4:])
 			}
-			L.recs = append(L.recs, rec{start: len(want), end: len(want) + 8 + len(payload), payload: payload, marker: mk, desc: k.String()})
+			L.recs = append(L.recs, rec{start: len(want), end: len(want) + 8 + len(payload), payload: payload, marker: mk, desc: k.String(), tag: replayTag(k, pos)})
 			want = append(want, frame(payload)...)
 			if err := cs.VerifWALWriteAt(w, t, m, sync); err != nil {
 				panic(err)
@@ -766,8 +769,14 @@ func runImage(u unit, c *collector) {
 	if g := w2.Group(); g.MaxIndex()-g.MinIndex()+1 != len(files) {
 		fatal("group sees indexes %d..%d, directory has %d files", g.MinIndex(), g.MaxIndex(), len(files))
 	}
+	eval := func(d damage, hs []uint64) []viol { return evalImage(w2, L, d, hs, c.st) }
+	if u.Replay {
+		rp := newReplayer(L)
+		defer rp.close()
+		eval = func(d damage, hs []uint64) []viol { return rp.eval(w2, L, d, c.st) }
+	}
 	if first {
-		vs := evalImage(w2, L, damage{class: "undamaged", none: true, p: len(L.recs), desc: "undamaged"}, heights, c.st)
+		vs := eval(damage{class: "undamaged", none: true, p: len(L.recs), desc: "undamaged"}, heights)
 		c.add(vs, base, replay("none"))
 		c.st["evaluations"]++
 	}
@@ -797,7 +806,7 @@ func runImage(u unit, c *collector) {
 				}
 				desc := fmt.Sprintf("file %s byte %d: %#02x -> %#02x (record %d %s, %s)", names[k], off, orig[off], v, ri, L.recs[ri].desc, field)
 				d := damage{class: "corruption:" + field, p: ri, desc: desc}
-				vs := evalImage(w2, L, d, dh, c.st)
+				vs := eval(d, dh)
 				if len(vs) > 0 {
 					c.add(vs, base+ord, replay(desc))
 				}
@@ -825,7 +834,7 @@ func runImage(u unit, c *collector) {
 			}
 			desc := fmt.Sprintf("file %s cut to %d of %d bytes", names[k], off, len(orig))
 			d := damage{class: cl, p: L.intactBefore(so), midGroup: !last, cut: last, lost: [2]int{so, L.bounds[k+1]}, desc: desc}
-			vs := evalImage(w2, L, d, dh, c.st)
+			vs := eval(d, dh)
 			if len(vs) > 0 {
 				c.add(vs, base+ord, replay(desc))
 			}
